@@ -911,6 +911,13 @@ impl<'a> BenchContext<'a> {
                     // SAFETY: We have exclusive access.
                     saved_alloc_info = unsafe { alloc_info.as_ptr().read() };
                 }
+
+                #[cfg(divan_verif)]
+                crate::__verif::log_event(
+                    crate::__verif::ev::TALLY_SNAPSHOT,
+                    0,
+                    0,
+                );
             };
 
             // Synchronize all threads to start timed section simultaneously and
@@ -936,7 +943,21 @@ impl<'a> BenchContext<'a> {
                     //
                     // This is the final synchronization point for the end.
                     if let Some(barrier) = barrier {
+                        #[cfg(divan_verif)]
+                        crate::__verif::log_event(
+                            crate::__verif::ev::BARRIER_ARRIVE,
+                            is_start as u64,
+                            0,
+                        );
+
                         barrier.wait();
+
+                        #[cfg(divan_verif)]
+                        crate::__verif::log_event(
+                            crate::__verif::ev::BARRIER_LEAVE,
+                            is_start as u64,
+                            0,
+                        );
                     }
 
                     if let Some(mut alloc_info) = alloc_info {
@@ -945,9 +966,30 @@ impl<'a> BenchContext<'a> {
 
                         alloc_info.clear();
 
+                        #[cfg(divan_verif)]
+                        crate::__verif::log_event(
+                            crate::__verif::ev::TALLY_CLEAR,
+                            0,
+                            0,
+                        );
+
                         // Synchronize all threads.
                         if let Some(barrier) = barrier {
+                            #[cfg(divan_verif)]
+                            crate::__verif::log_event(
+                                crate::__verif::ev::BARRIER_ARRIVE,
+                                2,
+                                0,
+                            );
+
                             barrier.wait();
+
+                            #[cfg(divan_verif)]
+                            crate::__verif::log_event(
+                                crate::__verif::ev::BARRIER_LEAVE,
+                                2,
+                                0,
+                            );
                         }
                     }
                 }
@@ -1397,6 +1439,89 @@ impl<'a> BenchContext<'a> {
                     .map(StatsSet::transpose),
             },
             counts,
+        }
+    }
+}
+
+/// Verification accessors (`--cfg divan_verif` only).
+#[cfg(divan_verif)]
+impl BenchContext<'_> {
+    /// Copies out everything recorded so far.
+    pub(crate) fn verif_dump(&self) -> crate::__verif::RunDump {
+        let mut alloc_infos: Vec<_> = self
+            .samples
+            .alloc_info_by_sample
+            .iter()
+            .map(|(&i, info)| (i, crate::__verif::plain_alloc_info(info)))
+            .collect();
+        alloc_infos.sort_by_key(|(i, _)| *i);
+
+        crate::__verif::RunDump {
+            did_run: self.did_run,
+            sample_size: self.samples.sample_size,
+            durations: self
+                .samples
+                .time_samples
+                .iter()
+                .map(|s| s.duration.picos)
+                .collect(),
+            alloc_infos,
+            counts: [0, 1, 2, 3].map(|kind| {
+                self.counters
+                    .counts(crate::__verif::counter_kind_of(kind))
+                    .iter()
+                    .map(|&c| c as u64)
+                    .collect()
+            }),
+            uses_input_counts: [0, 1, 2, 3].map(|kind| {
+                self.counters
+                    .uses_input_counts(crate::__verif::counter_kind_of(kind))
+            }),
+            stats: None,
+        }
+    }
+
+    /// Replaces the recorded samples by the given ones.
+    pub(crate) fn verif_load(
+        &mut self,
+        sample_size: u32,
+        durations: &[u128],
+        alloc_infos: &[(u32, ThreadAllocInfo)],
+        counts: &[Vec<u64>; 4],
+        uses_input_counts: [bool; 4],
+    ) {
+        self.did_run = true;
+        self.samples.clear();
+        self.samples.sample_size = sample_size;
+        self.samples.time_samples.extend(durations.iter().map(|&picos| {
+            TimeSample { duration: FineDuration { picos } }
+        }));
+        for (index, info) in alloc_infos {
+            self.samples.alloc_info_by_sample.insert(*index, info.clone());
+        }
+        self.counters = CounterCollection::default();
+        for kind in 0..4 {
+            let counter_kind = crate::__verif::counter_kind_of(kind);
+            if uses_input_counts[kind] {
+                match counter_kind {
+                    KnownCounterKind::Bytes => self
+                        .counters
+                        .set_input_counter(|_: &()| BytesCount::new(0u8)),
+                    KnownCounterKind::Chars => self
+                        .counters
+                        .set_input_counter(|_: &()| CharsCount::new(0u8)),
+                    KnownCounterKind::Cycles => self
+                        .counters
+                        .set_input_counter(|_: &()| CyclesCount::new(0u8)),
+                    KnownCounterKind::Items => self
+                        .counters
+                        .set_input_counter(|_: &()| ItemsCount::new(0u8)),
+                }
+            }
+            for &count in &counts[kind] {
+                self.counters
+                    .push_counter(AnyCounter::known(counter_kind, count as _));
+            }
         }
     }
 }
